@@ -332,6 +332,13 @@ package py
 //@   ensures ok: n > 0 && m > 0 && n <= 1099511627776 / m ==> err == nil && r == n * m && 0 < r && r <= 1099511627776
 //@   ensures toolong: n > 0 && m > 0 && n > 1099511627776 / m ==> raisesExc(err, MemoryError)
 
+//@ func (Tuple).M__mul__(l, other) (r, err)
+//@   ensures ni: !isSmallInt(other) ==> r == NotImplemented && err == nil
+//@   ensures shape: isSmallInt(other) && repeatOK(len(l), den(other)) ==> err == nil && is(r, Tuple) && len(r.(Tuple)) == ite(den(other) <= 0, 0, den(other) * len(l))
+//@   ensures toolong: isSmallInt(other) && !repeatOK(len(l), den(other)) ==> raisesExc(err, MemoryError)
+//@   ensures fresh: isSmallInt(other) && err == nil && len(r.(Tuple)) > 0 ==> fresh(r.(Tuple))
+//@   ensures src: arr(l) == old(arr(l))
+
 //@ func (*List).M__mul__(l, other) (r, err)
 //@   ensures ni: !isSmallInt(other) ==> r == NotImplemented && err == nil
 //@   ensures shape: isSmallInt(other) && repeatOK(len(l.Items), den(other)) ==> err == nil && is(r, *List) && fresh(r.(*List)) && r.(*List) != l
